@@ -321,6 +321,10 @@ func Parse(block []rune, pos int) (pt ParsedTokens, syntaxHighlighted string) {
 				pt.Loc = i
 				syntaxHighlighted += string(block[i])
 				pt.ExpectParam = true
+				if len(pt.Parameters) == 0 {
+					// `name = value` is an assignment, whatever the name is
+					pt.Unsafe = true
+				}
 			}
 
 		case ':':
